@@ -101,6 +101,7 @@ def describe(tier, seed):
                 platforms=["ios", "nxos(flat unnumbered, quick: length<=2)"])
 
 
+DUP5 = [1, 2, 3, 9]  # length-5 lists with repeated lines (p24, p30, p_host, p_tcp_eq)
 NFULL = 22  # the items that take part in the full-alphabet products
 NC_SUB = [0, 1, 2, 3, 4, 22, 23]
 
@@ -116,6 +117,9 @@ def units(tier, seed):
         for b in SHADOW_ONLY:
             out.append(dict(kind="long", first=[a, b]))
     out.append(dict(kind="twins"))
+    for a in DUP5:
+        for b in DUP5:
+            out.append(dict(kind="dup5", first=[a, b]))
     for a in STANDARD:
         for b in [None] + (STANDARD if tier == "thorough" else []):
             out.append(dict(kind="standard", first=a, second=b))
@@ -177,6 +181,12 @@ def run_unit(unit, ctx):
         for ln in (1, 2, 3):
             for rest in product(SWITCHED, repeat=ln - 1):
                 check_acl("ios", (unit["first"],) + rest, SW_VARIANTS[unit["variant"]], ctx)
+        return
+    if unit["kind"] == "dup5":
+        # five entries over four lines: every list has a repeated line, also on both sides of
+        # another covering pair
+        for rest in product(DUP5, repeat=3):
+            check_acl("ios", tuple(unit["first"]) + rest, VARIANTS[0], ctx)
         return
     first = tuple(unit["first"])
     if unit["kind"] == "core4":
